@@ -29,13 +29,13 @@ from . import _recv as R
 from . import c06 as _c06
 
 MODULE = 'bounded.c10'
-RULE = ('transparent case = (front-end, network packet = a corpus packet of 13 kinds or a sampled mutation of one, header '
+RULE = ('transparent case = (front-end, network packet = a corpus packet of 14 kinds or a sampled mutation of one, header '
         'set of the envelope); nack case = (front-end, reason, NonNegativeInteger width, named Interest, extra headers, '
         'same-wire/re-encoded Interest); fragmented case = (front-end, packet, FragIndex, FragCount, Sequence present); '
         'token case = (3-4 Interests with tokens from {none, len 0,1,8,32,33}, reply order permutation, replies per '
         'Interest, reply size/buffer kind); distinct = hash of the parameters; every case is non-trivial except a '
         'transparent case with an unparseable packet')
-BOUND = ('13 network packet kinds + every 9th (quick) / every (thorough) single-edit mutation of them x 9 header sets; '
+BOUND = ('14 network packet kinds + every 9th (quick) / every (thorough) single-edit mutation of them x 9 header sets; '
          '13 reason codes incl. 0, 2^32, 2^64-1 x widths x 5 named Interests; 3 Interests in all 6 orders (4 in all 24 in '
          'thorough) over all ordered token choices; reply sizes 7..70000 bytes')
 
@@ -207,7 +207,7 @@ def run_transparent(inp):
     d = diff_obs(bare, wrapped)
     if d is None:
         return []
-    kind = 'unknown-header-not-ignored' if headers else 'wrapped-vs-bare'
+    kind = 'wrapped-with-token-vs-bare' if has_token else 'unknown-header-not-ignored' if headers else 'wrapped-vs-bare'
     return [('C10:%s:%s:%s' % (fe_tag, kind, d),
              'packet %s: bare -> %s ; in envelope with headers %s -> %s' % (
                  pkt.hex()[:80], brief(bare), [hex(t) for t, _ in headers], brief(wrapped)))]
@@ -288,28 +288,45 @@ def run_nack(inp):
         desc = 'Nack(reason=%s%s) naming %s' % (reason, '' if width is None else ' in %d bytes' % width, R.name_uri(tcomps)
                                                  if target != 'digest' else '/p/dg/<implicit digest>')
         named = {k for k, comps in names.items() if comps == tcomps and k in sc.pend}
-        key_suffix = '' if reason is not None else '-without-reason'
-        if fe.log:
-            viol('nack%s-dispatched-as-interest' % key_suffix, desc + ': the Interest inside the Nack was handed to handler %s' % (
-                [c.hid for c in fe.log]))
-        if fe.face.sent:
-            viol('nack-sent-something', desc + ': %d packets sent' % len(fe.face.sent))
-        for k, t in sc.pend.items():
-            if k in named:
+        if reason is None:
+            # one defect, one key: a Nack header without NackReason must still be a Nack (NDNLPv2: reason "None")
+            sym = []
+            if fe.log:
+                sym.append('the Interest inside was handed to handler %s as an incoming Interest' % [c.hid for c in fe.log])
+            for k in sorted(named):
+                t = sc.pend[k]
+                ev = exc_view(t) if t.done() else None
                 if not t.done():
-                    viol('nack%s-not-delivered' % key_suffix + ('-implicit-digest' if target == 'digest' else ''),
-                         desc + ': pending Interest %s is still pending' % k)
-                    continue
-                ev = exc_view(t)
-                if ev is None or ev[0] != 'InterestNack':
-                    viol('nack%s-wrong-outcome' % key_suffix, desc + ': pending Interest %s ended with %s' % (k, ev or 'a result'))
-                elif reason is not None and (ev[1] != reason or isinstance(ev[1], bool) or not isinstance(ev[1], int)):
-                    viol('nack-reason', desc + ': pending Interest %s got reason %r' % (k, ev[1]))
-                elif reason is None and ev[1] not in (None, 0):
-                    viol('nack-without-reason-wrong-outcome', desc + ': reason %r reported' % (ev[1],))
-            elif t.done():
-                viol('nack-completed-other', desc + ': pending Interest %s (not named) was completed with %s' % (
-                    k, exc_view(t) or 'a result'))
+                    sym.append('pending Interest %s is still pending' % k)
+                elif ev is None or ev[0] != 'InterestNack' or ev[1] not in (None, 0):
+                    sym.append('pending Interest %s ended with %s' % (k, ev or 'a result'))
+            for k, t in sc.pend.items():
+                if k not in named and t.done():
+                    sym.append('pending Interest %s (not named) was completed' % k)
+            if fe.face.sent:
+                sym.append('%d packets sent' % len(fe.face.sent))
+            if sym:
+                viol('nack-without-reason-not-treated-as-nack', desc + ': ' + '; '.join(sym))
+        else:
+            if fe.log:
+                viol('nack-dispatched-as-interest', desc + ': the Interest inside the Nack was handed to handler %s' % (
+                    [c.hid for c in fe.log]))
+            if fe.face.sent:
+                viol('nack-sent-something', desc + ': %d packets sent' % len(fe.face.sent))
+            for k, t in sc.pend.items():
+                if k in named:
+                    if not t.done():
+                        viol('nack-not-delivered' + ('-implicit-digest' if target == 'digest' else ''),
+                             desc + ': pending Interest %s is still pending' % k)
+                        continue
+                    ev = exc_view(t)
+                    if ev is None or ev[0] != 'InterestNack':
+                        viol('nack-wrong-outcome', desc + ': pending Interest %s ended with %s' % (k, ev or 'a result'))
+                    elif ev[1] != reason or isinstance(ev[1], bool) or not isinstance(ev[1], int):
+                        viol('nack-reason', desc + ': pending Interest %s got reason %r' % (k, ev[1]))
+                elif t.done():
+                    viol('nack-completed-other', desc + ': pending Interest %s (not named) was completed with %s' % (
+                        k, exc_view(t) or 'a result'))
         for be in case.collect():
             viol('nack-background:%s' % be[0], desc + ': background error %s at %s: %s' % be)
         case.background_errors.clear()
